@@ -1426,6 +1426,10 @@ func (m *tqModel) errorCoverage() {
 							return true
 						}
 						nRet++
+						if len(r.Results) == 0 {
+							byReturn = false
+							return false
+						}
 						ev := Resolve(r.Results[len(r.Results)-1], st)
 						if cst, ok := EvalConst(ev, st); ok && cst.Value == nil {
 							byReturn = false
